@@ -140,3 +140,61 @@ func Explore(bound int, stop func() bool, scenario func(*Ctx)) (int, bool) {
 	rec(nil, nil, 0)
 	return n, complete
 }
+
+// ExploreSharded is Explore with the work dealt to shard/n: the root and the
+// level-1 executions are run by every shard (they are needed to discover the
+// points below them) and owned by one; level-2 subtrees are dealt round-robin and
+// run only by their owner. scenario is told whether this shard owns the execution
+// (only owned executions are to be recorded).
+func ExploreSharded(bound, shard, n int, stop func() bool, scenario func(c *Ctx, owned bool)) (int, bool) {
+	if n <= 1 {
+		return Explore(bound, stop, func(c *Ctx) { scenario(c, true) })
+	}
+	count := 0
+	complete := true
+	k1, k2 := 0, 0
+	var rec func(prefix []int, parent []point, devs, depth int, owned bool)
+	rec = func(prefix []int, parent []point, devs, depth int, owned bool) {
+		if !complete {
+			return
+		}
+		if stop != nil && stop() {
+			complete = false
+			return
+		}
+		c := &Ctx{prefix: prefix, parent: parent}
+		scenario(c, owned)
+		if owned {
+			count++
+		}
+		if len(c.Choices) < len(prefix) {
+			panic(fmt.Sprintf("explorer: execution consumed %d choices, prefix had %d: nondeterminism not owned", len(c.Choices), len(prefix)))
+		}
+		if bound >= 0 && devs+1 > bound {
+			return
+		}
+		for i := len(prefix); i < len(c.points); i++ {
+			for alt := 1; alt < c.points[i].n; alt++ {
+				np := make([]int, i+1)
+				copy(np, c.Choices[:i])
+				np[i] = alt
+				switch depth {
+				case 0:
+					own := k1%n == shard
+					k1++
+					rec(np, c.points[:i+1], devs+1, 1, own)
+				case 1:
+					own := k2%n == shard
+					k2++
+					if own {
+						rec(np, c.points[:i+1], devs+1, 2, true)
+					}
+				default:
+					rec(np, c.points[:i+1], devs+1, depth+1, true)
+				}
+			}
+		}
+	}
+	rec(nil, nil, 0, 0, shard == 0)
+	return count, complete
+}
